@@ -567,7 +567,7 @@ func checkC33(r *ev.Run) {
 	}
 	n := r.N(20000, 500000)
 	nChild := r.N(4000, 40000)
-	r.Rule("case = one generated two-height world (nodes listed for the chain at session start: count-2..count+40, sorted by address; their state at the reference height: ok / at the chain limit / over it / jailed / missing / chain removed / unstaking; bystanders that became eligible only after the start) + app key, chain, block hash, session node count in {1..24}, chain limit, heights around the max-chains activation height; types.NewSession is called with a stub PosKeeper and judged against internal/ref/sessionref (own SHA3, own walk) and against plain filtering of the world. Non-trivial = a session was selected from more candidates than needed and the walk had to skip at least one repeated or ineligible draw, or the call had to fail although at least `count` candidates were listed. Distinct = digest of the inputs.")
+	r.Rule("case = one generated two-height world (nodes listed for the chain at session start: count-2..count+40, sorted by address; their state at the reference height: ok / at the chain limit / over it / jailed / missing / chain removed / unstaking; bystanders that became eligible only after the start) + app key, chain, block hash, session node count in {1..24}, chain limit, heights around the max-chains activation height; types.NewSession is called with a stub PosKeeper and judged against internal/ref/sessionref (own SHA3, own walk) and against plain filtering of the world. Non-trivial = a session was selected from more candidates than needed and the walk had to skip at least one repeated or ineligible draw, or the call had to fail although at least `count` candidates were listed. Distinct = digest of the inputs. Second family (cases chain-N), on the full node: generated histories (stakes, chain-list edits, jailing, unstaking, removals, governance changes of the chain limit) in a node process with a dispatch request for 3 applications x 2 chains after every Commit; every served session must list distinct nodes whose decoded RECORDS in the state of the session's first block are staked and declare the chain, have the session node count of that state, and equal the reference selection over those records (candidates in address order; eligibility judged on the state of some height between the session start and the height served at, since the node may answer from its session cache). Non-trivial = at least 50 sessions judged in a history with node edit-stakes.")
 	r.Assume("the chain limit compared against is the parameter value of the session start height (what the code documents: 'retrieve the max chains value from the sessionCtx'); whether the rule is in force is decided by the reference (end) height")
 	r.Assume("a node that is unstaking (not jailed) at the reference height is not judged ineligible: the statement only requires staked-for-the-chain at session start")
 	r.Assume("malformed app key / chain / block hash inputs are only watched for panics; the statement is about valid inputs")
@@ -927,4 +927,5 @@ func checkC33(r *ev.Run) {
 			r.Count("cross_process_cases_compared", int64(cmp))
 		}
 	}
+	c33ChainLevel(r)
 }
